@@ -64,8 +64,9 @@ TilesOfU(Uv, a) == \* sequence of <<z,x,y,p>> in universe order for the coordina
     IN Build(idx)
 TilesOf(a) == TilesOfU(U(fmt), a)
 
-UniverseQuick == << <<0, 0, 0>>, <<1, 1, 0>>, <<3, 7, 7>>, <<9, 255, 255>>, <<9, 256, 255>>, <<9, 256, 256>> >>
-UniverseThorough == UniverseQuick \o << <<9, 255, 256>>, <<2, 1, 2>> >>
+\* three tiles share the single level-3 block (de-duplicated payloads inside one block, stored order vs index order)
+UniverseQuick == << <<0, 0, 0>>, <<3, 7, 7>>, <<3, 0, 7>>, <<3, 3, 2>>, <<9, 255, 255>>, <<9, 256, 255>> >>
+UniverseThorough == UniverseQuick \o << <<9, 256, 256>>, <<1, 1, 0>> >>
 AllFormats == Formats
 OnlyMBTiles == {"mbtiles"}
 \* a full 4x4 grid at level 2: every table, in particular the ones whose extreme rows are not in the
